@@ -1,5 +1,5 @@
 /-
-C05 — the bodies that `evalBody` does not interpret yet (tab-stop loops, REP, ICH's row alias, print,
+C05 — the bodies that `evalBody` does not interpret yet (tab-stop loops, REP, print,
 resize): their translated statement skeleton is pinned literally, so that an edit of one of these Go
 bodies changes `Gen/TermBodies.lean` and breaks the corresponding `shape_<fn>` (then the
 correspondence run decides whether the model still agrees). Weaker than `body_<fn>` in
@@ -9,22 +9,6 @@ import VaxisModel.Gen.TermBodies
 
 namespace VaxisModel.Props.C05BodyShapes
 open VaxisModel.Model.EmuBody VaxisModel.Gen
-
-theorem shape_ich : TermBodies.stmt_ich =
- (.seq (.ite (.cmp .eq (.loc (.var 0)) (.lit 0))
- (.assign (.var 0) (.lit 1))
- .skip)
- (.seq (.assign (.var 1) (.loc .curCol))
- (.seq (.assign (.var 2) (.loc .curRow))
- (.seq (.touchRow (.loc (.var 2)))
- (.seq (.forDown (.loc .right) (.add (.loc (.var 1)) (.loc (.var 0)))
- (.cellCopy (.loc (.var 2)) (.lv 0) (.loc (.var 2)) (.sub (.lv 0) (.loc (.var 0)))))
- (.forUp (.lit 0) (.lt (.loc (.var 0)))
- (.seq (.ite (.cmp .gt (.add (.loc (.var 1)) (.lv 0)) (.loc .right))
- .brk
- .skip)
- (.seq (.cellZero (.loc (.var 2)) (.add (.loc (.var 1)) (.lv 0)))
- (.erase (.loc (.var 2)) (.add (.loc (.var 1)) (.lv 0))))))))))) := rfl
 
 theorem shape_cht : TermBodies.stmt_cht =
  (.seq (.setLastCol false)
